@@ -955,6 +955,8 @@ def call_builtin(it, name, args, kwargs, env, node):
         seq = it.iterate(v, env, node)
         if seq is not None and name in ("list", "tuple", "set"):
             return list(seq) if name != "tuple" else tuple(seq)
+        if seq is not None and name == "reversed":
+            return list(seq)[::-1]
         if isinstance(v, DatasetVal):
             return list(v.items.keys())
         if name in ("list", "tuple", "iter"):
